@@ -9,11 +9,12 @@ import JugModel.Driver.Views
 import JugModel.Driver.Loader
 import JugModel.Driver.Loop
 import JugModel.Driver.Memo
+import JugModel.Driver.KALock
 /-! Line-protocol driver: one JSON object per input line, one JSON answer per output line.
     Imports the executable models only (never `Props`), so it still builds when a proof breaks. -/
 open Lean Jug.Drv
 
-def handlers : List (String → Json → Option Json) := [handleMR, handleOpt, handleHash, handleExec, handleLock, handleStore, handleGraph, handleViews, handleLoader, handleLoop, handleMemo]
+def handlers : List (String → Json → Option Json) := [handleMR, handleOpt, handleHash, handleExec, handleLock, handleStore, handleGraph, handleViews, handleLoader, handleLoop, handleMemo, handleKALock]
 
 def dispatch (j : Json) : Json :=
   let op := getStr j "op"
